@@ -90,7 +90,26 @@ class AvroWriter:
             ts = f["type"] if isinstance(f["type"], list) else [f["type"]]
             if not any(avro_accepts(it, t, v) for t in ts):
                 raise PyRaise(ValueError(f"{it.type_name(v)} value of field {f['name']!r} is not an example of the schema {ts!r}"))
-        self.buffer.append(dict(rec))
+        import datetime as _dtm
+
+        stored = dict(rec)
+        for f in self.schema.get("fields", []):
+            ts = f["type"] if isinstance(f["type"], list) else [f["type"]]
+            if any(isinstance(t, dict) and t.get("logicalType") == "timestamp-micros" for t in ts):
+                u = it.unbase(stored.get(f["name"]))
+                if isinstance(u, _dtm.datetime):
+                    # the logical type stores the instant (microseconds since the epoch); readers get an aware UTC datetime of that instant
+                    if u.tzinfo is None:
+                        raise Unsupported("naive datetime handed to the Avro timestamp-micros logical type (local time dependent)")
+                    try:
+                        stored[f["name"]] = u.astimezone(_dtm.timezone.utc).replace(fold=0)
+                    except OverflowError as e:
+                        raise PyRaise(e)
+                elif type(u).__name__ == "SymDT":
+                    if u.utcoffset() != _dtm.timedelta(0):
+                        raise Unsupported("symbolic non-UTC datetime handed to Avro")
+                    stored[f["name"]] = u
+        self.buffer.append(stored)
 
     def flush(self):
         if self.buffer:
@@ -278,7 +297,7 @@ class SqlCon:
                     raise PyRaise(sqlite3.OperationalError(f"table {m.group(1)} has no column named {n}"))
             for p in params:
                 u = self.it.unbase(p)
-                if not (u is None or isinstance(u, (int, float, str, bytes, SInt, SStr, SBool)) or type(u).__name__ == "SBytes"):
+                if not (u is None or isinstance(u, (int, float, str, bytes, SInt, SStr, SBool)) or type(u).__name__ in ("SBytes", "ISOText")):
                     raise PyRaise(sqlite3.ProgrammingError(f"Error binding parameter: type '{self.it.type_name(p)}' is not supported"))
                 if isinstance(u, int) and not isinstance(u, bool) and not -(2**63) <= u < 2**63:
                     raise PyRaise(OverflowError("Python int too large to convert to SQLite INTEGER"))
